@@ -76,3 +76,20 @@ def interior_mask(obj, shape):
         sl = tuple(slice(s, e) for (s, e) in b.grid_slice_tuple)
         m[sl] = False
     return m
+
+
+def field_scale(x):
+    """sum |x_i| |w_i|: the natural scale of field_fp's rounding noise"""
+    x = np.abs(np.ravel(np.asarray(x))).astype(np.float64)
+    w = np.abs(np.sin(np.arange(x.shape[0], dtype=np.float32) * np.float32(0.7391) + np.float32(0.3))).astype(np.float64)
+    return float(np.dot(x, w))
+
+
+def det_scale(detector_states):
+    tot = 0.0
+    for dn in sorted(detector_states):
+        for k in sorted(detector_states[dn]):
+            x = np.abs(np.ravel(np.asarray(detector_states[dn][k]))).astype(np.float64)
+            w = np.abs(np.sin(np.arange(x.shape[0], dtype=np.float64) * 0.6113 + 0.7))
+            tot += float(np.dot(x, w))
+    return tot
